@@ -116,6 +116,16 @@ def replay_lookup(rec, ctx, np, P, shapes):
                  ('Q2d_seq', lambda: P.Q2d_seq(req, r, t), lambda n, m: P.Q2d(n, m, r, t), (L,) + tuple(shape)),
                  ('xy_seq', lambda: np.asarray(P.xy_seq([(n, abs(m)) for n, m in req], x, y, cartesian_grid=False)),
                   lambda n, m: P.xy(n, abs(m), x, y, cartesian_grid=False), (L,) + tuple(shape))]
+        if len(shape) == 2:
+            # the documented use: a Cartesian meshgrid (xy_seq may exploit separability, the result may not lose its shape)
+            gx, gy = np.meshgrid(coords((shape[1],), 'real', np, salt=5), coords((shape[0],), 'real', np, salt=6))
+            def mesh_seq():
+                modes = P.xy_seq([(n, abs(m)) for n, m in req], gx, gy, cartesian_grid=True)
+                shp = {tuple(np.shape(a_)) for a_ in modes}
+                if shp != {tuple(shape)}:
+                    return np.zeros((L,) + sorted(shp - {tuple(shape)})[0])      # reported as a shape disagreement
+                return np.stack(modes)
+            cases.append(('xy_seq:meshgrid', mesh_seq, lambda n, m: np.broadcast_to(P.xy(n, abs(m), gx, gy, cartesian_grid=True), shape), (L,) + tuple(shape)))
         for name, seq, single, wshape in cases:
             sig = None
             try:
